@@ -102,6 +102,29 @@ def parseDec (t : Bytes) : Option (Int × Int) :=
   if ip = [] then none else
     ex.map (fun e => ((if neg then -1 else 1) * (decVal (ip ++ fp) : Int), e - (fp.length : Int)))
 
+/-! ### non-integral reals: the "within 1e-15" clause, with fmt and strtod as stated assumptions
+
+Values are rationals (every double is one).  Nothing here models binary64 or digit generation: the two conversions appear only through the two
+assumptions `G16` and `CorrRounded`, which are what IEEE 754 / C say about a correctly rounding `printf("%.16g")` and `strtod` in the normal range. -/
+
+def rabs (q : Rat) : Rat := if q < 0 then -q else q
+
+def pow10 (e : Int) : Rat := if e ≥ 0 then ((10 ^ e.toNat : Nat) : Rat) else 1 / ((10 ^ (-e).toNat : Nat) : Rat)
+
+/-- the exact rational value of a decimal text (see `parseDec`) -/
+def decValue (t : Bytes) : Option Rat := (parseDec t).map (fun p => (p.1 : Rat) * pow10 p.2)
+
+/-- ASSUMPTION on fmt `'{:.16}'` / `printf("%.16g")`, as a relation between the value `x` that is printed and the exact value `d` of the printed text:
+`d` has (at most) 16 significant digits with unit in the last place `s` (a power of ten, only `s > 0` is used), i.e. `10^15·s ≤ |d|`, and it is a nearest
+such decimal: `|x - d| ≤ s/2`.  (`%g` strips trailing zeros, which does not change `d`.)  Holds for glibc/fmt on every finite non-zero double; sampled on
+every vector value of every run (evidence `g16_assumption_checked`). -/
+def G16 (x d : Rat) : Prop := ∃ s : Rat, 0 < s ∧ 1000000000000000 * s ≤ rabs d ∧ rabs (x - d) ≤ s / 2
+
+/-- ASSUMPTION on `strtod`: the double `y` it returns for a text of exact value `d` is a nearest double, and `d` is in the normal range of binary64
+(`2^-1022 ≤ |d| ≤ DBL_MAX`), where half an ulp is at most `2^-53·|d|`.  Does NOT hold for subnormal results or for texts above `DBL_MAX`
+(the open finding C05-dblmax-overflow is exactly such a text).  Sampled on every vector value in the normal range (evidence `strtod_assumption_checked`). -/
+def CorrRounded (d y : Rat) : Prop := rabs (y - d) ≤ rabs d / 9007199254740992
+
 /-- the integers of the `Options` block in file order -/
 def optInts (opts : List Int) (ncons nd nvars np : Nat) : List Int :=
   (opts.length : Int) :: opts ++ [(ncons : Int), (nd : Int), (nvars : Int), (np : Int)]
